@@ -65,7 +65,7 @@ func opWriterReattached(p *core.Program, r *core.Report, rule string) {
 	for changed := true; changed; {
 		changed = false
 		for fn, fd := range decls {
-			if attaches[fn] || core.RecvName(fd) != "fragment" {
+			if attaches[fn] {
 				continue
 			}
 			ast.Inspect(fd.Body, func(n ast.Node) bool {
